@@ -10,7 +10,7 @@ fn base_files() -> Vec<String> {
 }
 
 pub fn worlds(thorough: bool) -> Vec<(Vec<String>, [String; 3])> {
-    let m3: Vec<&str> = if thorough { vec!["L:l0", "L:l1", "L:l0 L:l1", "C:l1", "O:l1", "D:d", "M:f", "R:d"] } else { vec!["L:l0", "D:d", "M:f", "C:l1"] };
+    let m3: Vec<&str> = if thorough { vec!["L:l0", "L:l1", "L:l0 L:l1", "C:l1", "O:l1", "D:d", "M:f", "R:d", "G:l0"] } else { vec!["L:l0", "D:d", "M:f", "C:l1", "G:l0"] };
     let m2: Vec<&str> = if thorough { vec!["L:l1", "N:n3", "N:n3 L:l0", "O:l1", "N:n3 C:l0", "D:d", "M:f", "L:l0"] } else { vec!["L:l1", "N:n3", "N:n3 L:l0", "O:l1"] };
     let m1: Vec<&str> = if thorough { vec!["N:n2", "N:n2 N:n3", "L:l0 L:l1", "N:n3", "N:n2 L:l1", "C:l0 N:n2", "R:d N:n2"] } else { vec!["N:n2", "N:n2 N:n3", "L:l0 L:l1"] };
     let mut out = vec![];
